@@ -113,6 +113,9 @@ type Task struct {
 	started   bool
 	gone      bool   // its goroutine has handed the baton on for the last time
 	goid      uint64 // simulated goroutine id, assigned when somebody first asks for it
+	stalled   bool   // held at a rarely reached preemption point (the "stalled node" fault)
+	stallKey  uint32
+	stallEnd  int64
 }
 
 // IsDaemon reports whether the task was started by the code under test.
@@ -164,6 +167,15 @@ type Sim struct {
 	hint     bool
 	draining bool // all caller tasks are done: daemons are being torn down
 	pending  []func()
+
+	// stalled-node fault: a task that reaches a preemption point almost nobody reaches is held
+	// there until another task arrives at the same point (or nobody else can run, or the stall
+	// runs out); the two are then interleaved uniformly for a short burst.
+	rareStall  bool
+	siteCount  map[uint32]int32
+	stalledNow int
+	stallLimit int64
+	burst      int
 }
 
 type timer struct {
@@ -189,6 +201,8 @@ type Config struct {
 	Clock    ClockMode
 	MaxSteps int64
 	Keep     bool
+	// RareStall switches the stalled-node fault on (see Sim.rareStall).
+	RareStall bool
 }
 
 // New starts a run.
@@ -196,6 +210,11 @@ func New(t *core.Tape, c Config) *Sim {
 	gen++
 	s := &Sim{Tape: t, Gen: gen, MaxSteps: c.MaxSteps, keep: c.Keep, strategy: c.Strategy, clock: c.Clock,
 		hash: core.NewHash(), Faults: core.Counters{}, Probes: core.Counters{}, finished: make(chan struct{}), victim: -1}
+	if c.RareStall {
+		s.rareStall = true
+		s.siteCount = map[uint32]int32{}
+		s.stallLimit = 4096 << uint(t.Choose(9))
+	}
 	return s
 }
 
@@ -666,6 +685,12 @@ func (s *Sim) enabled(t *Task) bool {
 	if t.done || t.arriveAt > s.Steps {
 		return false
 	}
+	if t.stalled {
+		if s.Steps < t.stallEnd {
+			return false
+		}
+		s.unstall(t, "stall_expired")
+	}
 	return t.blockedOn == nil || t.blockedOn.Free(t)
 }
 
@@ -704,6 +729,9 @@ func (s *Sim) Yield(k Kind, obj int) {
 	if len(s.timers) > 0 {
 		s.fireTimers()
 	}
+	if s.rareStall {
+		s.stallAt(me, k, obj)
+	}
 	next := s.pick(me)
 	if next == nil {
 		if me.blockedOn != nil {
@@ -738,6 +766,78 @@ func (s *Sim) BlockOn(w Waitable, obj int) {
 		s.Yield(KBlocked, obj)
 		me.blockedOn = nil
 	}
+}
+
+// rareSiteMax is how often a preemption point (kind, object) may have been reached in a run
+// and still count as rarely reached; stallWarmup keeps the start of the run, where every
+// point is new, out of it.
+const (
+	rareSiteMax = 3
+	stallWarmup = 256
+	stallBurst  = 48
+)
+
+func (s *Sim) stallAt(me *Task, k Kind, obj int) {
+	if k == KBlocked || k == KDone || k == KStart {
+		return
+	}
+	key := uint32(k)<<24 | uint32(obj)&0xffffff
+	c := s.siteCount[key]
+	s.siteCount[key] = c + 1
+	if s.stalledNow > 0 {
+		for _, t := range s.tasks {
+			if t.stalled && t != me && t.stallKey == key {
+				// somebody else has come to where the stalled task waits: let them go on together
+				s.unstall(t, "stall_rendezvous")
+				s.burst = stallBurst
+			}
+		}
+		return
+	}
+	if s.Steps < stallWarmup || c > rareSiteMax || me.daemon {
+		return
+	}
+	s.Probes.Inc("rare_site_reached")
+	others := 0
+	for _, t := range s.tasks {
+		if t != me && !t.done && !t.daemon {
+			others++
+		}
+	}
+	if others == 0 {
+		return
+	}
+	me.stalled = true
+	me.stallKey = key
+	me.stallEnd = s.Steps + s.stallLimit
+	s.stalledNow++
+	s.Faults.Inc("stalled_at_rare_site")
+	if s.keep {
+		s.Trace = append(s.Trace, fmt.Sprintf("step %d t%d stalled at %s #%d", s.Steps, me.ID, k, obj))
+	}
+}
+
+func (s *Sim) unstall(t *Task, why string) {
+	if !t.stalled {
+		return
+	}
+	t.stalled = false
+	s.stalledNow--
+	s.Faults.Inc(why)
+	if s.keep {
+		s.Trace = append(s.Trace, fmt.Sprintf("step %d t%d released (%s)", s.Steps, t.ID, why))
+	}
+}
+
+func (s *Sim) unstallAll(why string) bool {
+	any := false
+	for _, t := range s.tasks {
+		if t.stalled {
+			s.unstall(t, why)
+			any = true
+		}
+	}
+	return any
 }
 
 func (s *Sim) noteContention(me *Task) {
@@ -848,6 +948,10 @@ func (s *Sim) YieldHint() { s.hint = true }
 func (s *Sim) pick(cur *Task) *Task {
 	hint := s.hint
 	s.hint = false
+	if hint && s.stalledNow > 0 {
+		// the running task is politely waiting, perhaps for the stalled one
+		s.unstallAll("stall_released_waited_for")
+	}
 	if hint && cur != nil && s.strategy == SPCT {
 		cur.prio = s.lowPrio
 		s.lowPrio--
@@ -879,6 +983,9 @@ func (s *Sim) pick(cur *Task) *Task {
 			s.Faults.Inc("staggered_arrival_jump")
 			return soon
 		}
+		if s.stalledNow > 0 && s.unstallAll("stall_released_idle") {
+			return s.pick(cur)
+		}
 		// nothing runnable, nobody to arrive: jump the simulated clock to the next timer
 		if at, ok := s.nextTimer(); ok {
 			if at > s.MonoNs {
@@ -893,6 +1000,10 @@ func (s *Sim) pick(cur *Task) *Task {
 	}
 	if len(en) == 1 {
 		return en[0]
+	}
+	if s.burst > 0 {
+		s.burst--
+		return en[s.Tape.Choose(len(en))]
 	}
 	if hint && curEnabled && (s.strategy == SRunToBlock || s.strategy == SSticky50 || s.strategy == SSticky90) {
 		return en[1+s.Tape.Choose(len(en)-1)]
